@@ -9,6 +9,9 @@ To make this true, `TimedRel` (R4Defs) has been generalised in two places:
   timers in `(time, id)` order, all with set clock = the clock at snapshot time and delay = the remaining time;
 * the flights of the reference state are the deliverable queued copies up to order **and up to inert delivery
   options** (`Opts.inert`): the snapshot marks every in-flight message `noFail`.
+  (R6: with an arbitrary drop rate the flights of the reference state may in addition contain *zombies*, and the options
+  need only exclude duplication and corruption, `Opts.dropOnly`; the snapshot has no zombies — it takes over the
+  deliverable queued copies only — and marks every flight `noFail`, so `timedRel_snapshot` is unchanged.)
 
 `R4Defs` cannot use `Opts.inert` / `Flight.core` (they are defined in `R5Defs`, downstream of R4); it has the copies
 `Opts.noFault` / `Flight.key` (`Opts.noFault_eq_inert`, `Flight.key_eq_core` below).  Further invariants the snapshot
@@ -295,7 +298,10 @@ theorem timedRel_snapshot [LawfulTime T] (bits : T → Nat) (laws : SnapTimeLaws
     simp only [TimerGhost.toPTimer] at hp hn
     subst hp hn
     exact hne (huniq a hla a' hla' _ _ hd hd')
-  · -- flights, as a multiset of triples
+  · -- flights, as a multiset of triples (the snapshot takes over the deliverable copies only: no zombies)
+    refine ⟨[], ?_, fun _ => rfl⟩
+    rw [List.append_nil]
+    unfold liveKeys
     rw [hflights, List.map_filterMap]
     have h1 : (snapshotSource q).filterMap (fun e => Option.map Flight.key
         (match snapEv bits q.clock (snapshotNet bits q).maxDelay e with
